@@ -217,6 +217,24 @@ def workflow_job(job):
                             hd[0].header["CRPIX1"] = 100.5 - 200 * i
                         paths.append(p)
                     cli.entrypoint(["tile-multi-tan", "--parallelism", "1", "--outdir", out] + paths)
+                elif wf == "study-api":
+                    # the Builder route with a pyramid whose tile format is NOT the one the image itself prefers
+                    # (an in-memory bitmap prefers png; a float array prefers npy)
+                    _, w, h, kind, fmt, scheme = job
+                    from toasty.builder import Builder
+                    from toasty.image import Image
+                    from toasty.pyramid import PyramidIO
+
+                    yy, xx = np.mgrid[0:h, 0:w]
+                    if kind == "rgb":
+                        arr = np.stack([(xx * 3) % 256, (yy * 5) % 256, (xx + yy) % 256], axis=-1).astype("u1")
+                    else:
+                        arr = (xx * 0.5 + yy * 0.25 + 1.0).astype("f4")
+                    pio = PyramidIO(out, default_format=fmt, scheme=scheme)
+                    b = Builder(pio)
+                    b.tile_base_as_study(Image.from_array(arr))
+                    b.set_name("api")
+                    b.write_index_rel_wtml()
                 elif wf == "pipeline":
                     _, w, h = job
                     out = run_pipeline(d, w, h)
@@ -471,6 +489,10 @@ def run(tier, seed):
         ("pipeline", 700, 300),
         ("pipeline", 200, 150),
         ("tile-study", 200, 100, False),
+        ("study-api", 700, 300, "rgb", "npy", "L/Y/YX"),
+        ("study-api", 300, 520, "rgb", "jpg", "LXY"),
+        ("study-api", 513, 300, "f32", "fits", "LXY"),
+        ("study-api", 300, 300, "rgb", "png", "LXY"),
     ]
     if tier == "thorough":
         wfs += [("tile-study", 1025, 513, True), ("tile-allsky", 3, "plate-carree-galactic", True), ("tile-multi-tan", 3), ("pipeline", 300, 700), ("tile-study-fits", 1030, 200)]
